@@ -213,6 +213,8 @@ def table_ops(table):
             ops["store(%d)" % i] = (lambda s, i=i: s.storePreKey(i, Tok(A + bytes([i]))), lambda m, i=i: m.__setitem__(i, (A + bytes([i]), None)))
             ops["remove(%d)" % i] = (lambda s, i=i: s.removePreKey(i), lambda m, i=i: m.pop(i, None))
         ops["setAsSent(5,6)"] = (lambda s: s.preKeyStore.setAsSent([5, 6]), lambda m: [m.__setitem__(i, (m[i][0], 1)) for i in (5, 6) if i in m])
+        # a confirmed upload whose ids are neither consecutive nor ordered (the keys between them belong to another, unconfirmed upload)
+        ops["setAsSent(7,5)"] = (lambda s: s.preKeyStore.setAsSent([7, 5]), lambda m: [m.__setitem__(i, (m[i][0], 1)) for i in (7, 5) if i in m])
     elif table == "signed_prekeys":
         for i in (1, 2):
             ops["store(%d)" % i] = (lambda s, i=i: s.storeSignedPreKey(i, Tok(B + bytes([i]))), lambda m, i=i: m.__setitem__(i, B + bytes([i])))
